@@ -1095,7 +1095,7 @@ func genC13(g *G) {
 			}
 		}
 	}
-	for i := 0; i < g.Count(900, 40000); i++ {
+	for i := 0; i < g.Count(900, 25000); i++ {
 		init := c13Ints(c13Subset(g)) + "/" + itoa(1+g.Intn(3))
 		thr := "2"
 		if g.Intn(3) == 0 {
